@@ -15,6 +15,12 @@ pub fn run(id: &str, tier: &str) -> i32 {
     let rep = Report::new(id, tier);
     match id {
         "C01" | "C02" | "C03" | "C04" | "C09" | "C11" | "C14" | "C16" | "C19" => run_e1(&rep),
+        "C05" => crate::e3::run_c05(&rep),
+        "C06" => crate::e3::run_c06(&rep),
+        "C10" => crate::e3::run_c10(&rep),
+        "C07" => crate::e2::run(&rep, crate::e2::Mode::Find),
+        "C08" => crate::e2::run(&rep, crate::e2::Mode::Replace),
+        "C18" => crate::e2::run(&rep, crate::e2::Mode::Faults),
         _ => {
             println!("MACHINERY-ERROR: unknown property {}", id);
             2
@@ -51,6 +57,13 @@ pub fn replay(path: &str) -> i32 {
             }
         }
         "table" => e1run::replay_table(&case),
+        "io" => crate::e2::replay(&case.clone().set("property", J::s(j.str_of("property")))),
+        "packed" => crate::e3::replay_packed(&case),
+        "acdiff" => crate::e3::replay_acdiff(&case),
+        "hang" => {
+            println!("re-running the whole check at tier {} (the recorded case was a work item that made no progress: {})", case.str_of("tier"), case.str_of("item_desc"));
+            return run(&j.str_of("property"), &case.str_of("tier"));
+        }
         other => {
             println!("unknown engine {}", other);
             2
